@@ -86,6 +86,13 @@ func genCase(r row, pos, variant int) *rapid.Generator[caseSpec] {
 		}
 		cs.Cut = rapid.IntRange(0, 999).Draw(t, "cut")
 		cs.SegMax = rapid.SampledFrom([]int{0, 0, 0, 1, 2, 5, 64, 1000}).Draw(t, "segmax")
+		if !floodWithStop && r.scn.callsStop() {
+			// a client Stop() that meets more than 10 unread segments of its protocol
+			// wedges the muxer on the unchanged tree (findings/C15.md); scenarios that
+			// call Stop get their messages in one segment each, so that history is not
+			// generated
+			cs.SegMax = 0
+		}
 		cs.LingerUs = rapid.SampledFrom([]int{0, 200, 2000, 20000, 60000}).Draw(t, "linger_us")
 		if r.fault == fSilenceClose && cs.LingerUs < 2000 {
 			cs.LingerUs = 2000
